@@ -382,6 +382,12 @@ where
             .store()
             .subslice_utf8_offset(self.text())
             .expect("subslice should succeed");
+        if abscursor > self.textlen() {
+            return Err(StamError::CursorOutOfBounds(
+                Cursor::BeginAligned(abscursor),
+                "utf8byte(): cursor is beyond the text selection",
+            ));
+        }
         Ok(self.store().utf8byte(self.absolute_cursor(abscursor))? - beginbyte)
     }
 
@@ -393,10 +399,14 @@ where
             .store()
             .subslice_utf8_offset(self.text())
             .expect("subslice should succeed");
-        Ok(self
-            .store()
-            .utf8byte_to_charpos(self.absolute_cursor(beginbyte + bytecursor))?
-            - self.begin())
+        if bytecursor > self.text().len() {
+            return Err(StamError::CursorOutOfBounds(
+                Cursor::BeginAligned(bytecursor),
+                "utf8byte_to_charpos(): byte is beyond the text selection (cursor is to be interpreted as a utf-8 byte position here)",
+            ));
+        }
+        //(beginbyte + bytecursor is a byte position in the resource, the result is a character position)
+        Ok(self.store().utf8byte_to_charpos(beginbyte + bytecursor)? - self.begin())
     }
 
     fn absolute_cursor(&self, cursor: usize) -> usize {
@@ -573,6 +583,12 @@ where
             .store()
             .subslice_utf8_offset(self.text())
             .expect("subslice should succeed");
+        if abscursor > self.textlen() {
+            return Err(StamError::CursorOutOfBounds(
+                Cursor::BeginAligned(abscursor),
+                "utf8byte(): cursor is beyond the text selection",
+            ));
+        }
         Ok(self.store().utf8byte(self.absolute_cursor(abscursor))? - beginbyte)
     }
 
@@ -584,10 +600,14 @@ where
             .store()
             .subslice_utf8_offset(self.text())
             .expect("subslice should succeed");
-        Ok(self
-            .store()
-            .utf8byte_to_charpos(self.absolute_cursor(beginbyte + bytecursor))?
-            - self.begin())
+        if bytecursor > self.text().len() {
+            return Err(StamError::CursorOutOfBounds(
+                Cursor::BeginAligned(bytecursor),
+                "utf8byte_to_charpos(): byte is beyond the text selection (cursor is to be interpreted as a utf-8 byte position here)",
+            ));
+        }
+        //(beginbyte + bytecursor is a byte position in the resource, the result is a character position)
+        Ok(self.store().utf8byte_to_charpos(beginbyte + bytecursor)? - self.begin())
     }
 
     fn absolute_cursor(&self, cursor: usize) -> usize {
